@@ -61,6 +61,36 @@ func pinnedName(fn *ssa.Function, v ssa.Value, free bool) string {
 	return v.Name()
 }
 
+// PinnedLocals maps a top-level function's canonical name to the names its local variables had on the
+// reviewed tree, in order of declaration; CurrentLocals holds the same list for the tree being
+// analysed (filled by the loader from the syntax tree). When both lists have the same length a
+// local is rendered by the pinned name at its position, so renaming a local does not change terms.
+var (
+	PinnedLocals  = map[string][]string{}
+	CurrentLocals = map[string][]string{}
+)
+
+// LocalName returns the pinned name of local variable `name` of function fn (or name itself).
+func LocalName(fn *ssa.Function, name string) string {
+	if fn == nil || name == "" {
+		return name
+	}
+	for fn.Parent() != nil {
+		fn = fn.Parent()
+	}
+	key := FuncName(fn)
+	cur, pin := CurrentLocals[key], PinnedLocals[key]
+	if len(cur) == 0 || len(cur) != len(pin) {
+		return name
+	}
+	for i, n := range cur {
+		if n == name {
+			return pin[i]
+		}
+	}
+	return name
+}
+
 // Short shortens well-known import path prefixes in rendered names.
 func Short(s string) string { return shorten.Replace(s) }
 
@@ -183,7 +213,7 @@ func term(v ssa.Value, depth int, onstack map[ssa.Value]bool) string {
 		if onstack[x] || depth > 6 || loopCarried(x) {
 			// loop-carried values are rendered by name so that the term does not depend on
 			// where the cycle is entered
-			return "phi:" + x.Comment
+			return "phi:" + LocalName(x.Parent(), x.Comment)
 		}
 		onstack[x] = true
 		var es []string
@@ -252,7 +282,7 @@ func term(v ssa.Value, depth int, onstack map[ssa.Value]bool) string {
 		return term(x.X, depth+1, onstack) + "[" + lo + ":" + hi + "]"
 	case *ssa.Alloc:
 		if x.Comment != "" {
-			return "local:" + x.Comment
+			return "local:" + LocalName(x.Parent(), x.Comment)
 		}
 		return "local:" + x.Name()
 	case *ssa.TypeAssert:
@@ -261,14 +291,14 @@ func term(v ssa.Value, depth int, onstack map[ssa.Value]bool) string {
 		return "closure:" + FuncName(x.Fn.(*ssa.Function))
 	case *ssa.MakeMap:
 		if n := LocalNames[x.Pos()]; n != "" {
-			return "map:" + n
+			return "map:" + LocalName(x.Parent(), n)
 		}
 		return "makemap"
 	case *ssa.MakeSlice:
 		return "makeslice(" + term(x.Len, depth+1, onstack) + ")"
 	case *ssa.MakeChan:
 		if n := LocalNames[x.Pos()]; n != "" {
-			return "chan:" + n
+			return "chan:" + LocalName(x.Parent(), n)
 		}
 		return "makechan"
 	case *ssa.Select:
